@@ -62,6 +62,13 @@ func genC02(seed uint64, tier string) *plan.Plan {
 				nrec = 1 + r.IntN(2)
 			}
 			pl.Ops = append(pl.Ops, plan.Op{K: "data", A: int64(slot), B: int64(nrec), C: int64(r.Uint64() >> 1), D: maxVar, S: []string{"", "extra", "v2"}[r.IntN(3)]})
+			if r.IntN(8) == 0 {
+				// the Set as it stands is sent once more (after another PrepareSet with the same arguments, or not)
+				pl.Ops = append(pl.Ops, plan.Op{K: "resend", S: []string{"", "prep"}[r.IntN(2)]})
+			}
+			if r.IntN(12) == 0 {
+				pl.Ops = append(pl.Ops, plan.Op{K: "tmplagain", A: int64(r.IntN(nT))})
+			}
 		case x < 9:
 			d := time.Duration(r.IntN(1500)) * time.Millisecond
 			if udp && r.IntN(2) == 0 {
